@@ -1,6 +1,6 @@
 (* C14/Model.v — executable model of include/iora/parsers/xml.hpp: the pull parser
    (Parser::next and all its readers, limits, element stack), decodeEntities /
-   appendCharRef / encodeUtf8 (with the uint32 wrap-around written out), the SAX run
+   appendCharRef / encodeUtf8 (the accumulator stops at U+10FFFF, so no uint32 wrap-around), the SAX run
    (= the token list) and DomBuilder::build.
    The cursor _cur is represented by the remaining suffix plus its offset.
    Definitions only. *)
@@ -301,17 +301,23 @@ Definition hexv (c : N) : option N :=
   else if (65 <=? c) && (c <=? 70) then Some (c - 55)
   else None.
 
-Definition w32 (x : N) : N := x mod 4294967296.
+Definition MAXCP : N := 1114111.
 
+(* the accumulators give up as soon as the value leaves the Unicode range (so they cannot wrap in uint32) *)
 Fixpoint hex_acc (code : N) (l : list N) : option N :=
   match l with
   | [] => Some code
-  | c :: t => match hexv c with Some v => hex_acc (w32 (code * 16) + v) t | None => None end
+  | c :: t => match hexv c with
+              | Some v => let code' := code * 16 + v in if MAXCP <? code' then None else hex_acc code' t
+              | None => None
+              end
   end.
 Fixpoint dec_acc (code : N) (l : list N) : option N :=
   match l with
   | [] => Some code
-  | c :: t => if (48 <=? c) && (c <=? 57) then dec_acc (w32 (code * 10 + (c - 48))) t else None
+  | c :: t => if (48 <=? c) && (c <=? 57)
+              then let code' := code * 10 + (c - 48) in if MAXCP <? code' then None else dec_acc code' t
+              else None
   end.
 
 Definition encode_utf8 (cp : N) : option (list N) :=
@@ -328,7 +334,7 @@ Definition encode_utf8 (cp : N) : option (list N) :=
 Definition char_ref (body : list N) : option (list N) :=
   match body with
   | _ :: x :: t =>
-    let code := if (x =? 120) || (x =? 88) then hex_acc 0 t else dec_acc 0 (x :: t) in
+    let code := if (x =? 120) || (x =? 88) then (match t with [] => None | _ => hex_acc 0 t end) else dec_acc 0 (x :: t) in
     match code with Some c => encode_utf8 c | None => None end
   | _ => None
   end.
